@@ -212,3 +212,48 @@ func zzC03_unmarshal() {
 	vAssert(dst.Ignored == 0, "untagged field untouched")
 	vReach("C03_unmarshal")
 }
+
+// zzC03_nested: grouped AVPs nested as deep as the size allows: a chain of D group headers (code and
+// flags symbolic, one variable each) around an empty innermost group. Memory must stay within a
+// small multiple of the bytes supplied (not grow with depth x size), and every inspection works.
+func zzC03_nested() {
+	depth := vParam("D", 200)
+	code := vU32("code")
+	flags := vU8("flags") & 0x7f // no vendor id: 8-byte headers
+	app := vU32("app")
+	d := vAbstractDict()
+	da, derr := d.FindAVPWithVendor(app, code, 0)
+	vAssume(derr == nil && da.Data.Type == datatype.GroupedType)
+	zzKnownCommand(d, app, 257)
+	body := make([]byte, 8*depth)
+	for i := 0; i < depth; i++ {
+		o := 8 * i
+		l := 8 * (depth - i)
+		body[o], body[o+1], body[o+2], body[o+3] = byte(code>>24), byte(code>>16), byte(code>>8), byte(code)
+		body[o+4] = flags
+		body[o+5], body[o+6], body[o+7] = byte(l>>16), byte(l>>8), byte(l)
+	}
+	wire := zzMessageBytes(body, 0x80, 257, app)
+	vAllocLimit(64*len(wire) + 4096 + 2*MessageBufferLength)
+	m, err := ReadMessage(zzNewReader(wire), d)
+	vAllocCheck()
+	vAssert(vAllocBytes() <= 64*len(wire)+4096+2*MessageBufferLength || !vSymbolic(), "memory stays within a small multiple of the bytes supplied however deep the groups nest")
+	vAssert(err == nil && len(m.AVP) == 1, "the nested chain decodes")
+	if err == nil {
+		n := 0
+		a := m.AVP[0]
+		for {
+			n++
+			g, ok := a.Data.(*GroupedAVP)
+			if !ok || len(g.AVP) == 0 {
+				break
+			}
+			a = g.AVP[0]
+		}
+		vAssert(n == depth, "every level is reported")
+		out, serr := m.Serialize()
+		vAssert(serr == nil, "and the message serialises")
+		zzBytesEq(out, wire, "to the same bytes")
+	}
+	vReach("C03_nested")
+}
